@@ -4,8 +4,13 @@ every step is compared with the Lean model (`hist.run`), byte-level snapshots of
 `np.shares_memory` relation are taken after every step.
 """
 import numpy as np
-from . import exact, kernels, mpsgen, common
+from . import exact, gen, kernels, krylov_kernels, mpsgen, common
 from .common import py_call
+
+
+def too_big(obj):
+    from .evolib import too_big as tb
+    return tb(obj)
 
 
 def cls_of(o):
@@ -29,6 +34,9 @@ def init_pool(rng, nmps=2, nmpo=2, maxD=3):
     qd = mpsgen.rand_qd(rng, d)
     bnd = (int(rng.integers(-1, 2)), int(rng.integers(-1, 3)))
     obnd = (0, 0) if rng.random() < 0.7 else (int(rng.integers(-1, 2)), int(rng.integers(-1, 2)))
+    if rng.random() < 0.6:
+        # pools on which the TDVP / DMRG steps are admissible and small (L <= 3, D <= 2, operator boundary charges (0, 0))
+        L = int(rng.integers(1, 4)); obnd = (0, 0); maxD = 2
     pool = []
     for _ in range(nmps):
         pool.append(mpsgen.rand_mps(rng, L=L, qd=qd, maxD=maxD, boundary=bnd, dtype=str(rng.choice(['int', 'float', 'complex']))))
@@ -50,7 +58,7 @@ def choose_op(rng, pool, allow_invalid=0.03):
     idx_mps = [i for i, o in enumerate(pool) if type(o).__name__ == 'MPS']
     idx_mpo = [i for i, o in enumerate(pool) if type(o).__name__ == 'MPO']
     for _ in range(50):
-        k = int(rng.integers(0, 10))
+        k = int(rng.integers(0, 16))
         mode = 'left' if rng.random() < 0.5 else 'right'
         if k == 0 and idx_mps:
             return {'h': 'ortho_mps', 'i': int(rng.choice(idx_mps)), 'mode': mode}
@@ -60,22 +68,43 @@ def choose_op(rng, pool, allow_invalid=0.03):
             return {'h': 'compress', 'i': int(rng.choice(idx_mps)), 'mode': mode, 'tol': float(rng.choice([0, 0, 0.125, 0.25, 0.5]))}
         if k == 4 and len(idx_mps) >= 1:
             i, j = int(rng.choice(idx_mps)), int(rng.choice(idx_mps))
-            ok = same_boundary(pool[i], pool[j]) and maxbond(pool[i]) + maxbond(pool[j]) <= 8 and np.array_equal(pool[i].qd, pool[j].qd)
+            ok = len(pool[i].A) == len(pool[j].A) and same_boundary(pool[i], pool[j]) and maxbond(pool[i]) + maxbond(pool[j]) <= 8 and np.array_equal(pool[i].qd, pool[j].qd)
             if ok or rng.random() < allow_invalid:
                 return {'h': 'add_mps', 'i': i, 'j': j, 'alpha': 1 if rng.random() < 0.5 else -1}
         if k == 5 and len(idx_mpo) >= 1:
             i, j = int(rng.choice(idx_mpo)), int(rng.choice(idx_mpo))
-            ok = same_boundary(pool[i], pool[j]) and maxbond(pool[i]) + maxbond(pool[j]) <= 6 and np.array_equal(pool[i].qd, pool[j].qd)
+            ok = len(pool[i].A) == len(pool[j].A) and same_boundary(pool[i], pool[j]) and maxbond(pool[i]) + maxbond(pool[j]) <= 6 and np.array_equal(pool[i].qd, pool[j].qd)
             if ok or rng.random() < allow_invalid:
                 return {'h': 'add_mpo', 'i': i, 'j': j, 'alpha': 1 if rng.random() < 0.5 else -1}
         if k == 6 and idx_mpo:
             i, j = int(rng.choice(idx_mpo)), int(rng.choice(idx_mpo))
-            if maxbond(pool[i]) * maxbond(pool[j]) <= 6 and (np.array_equal(pool[i].qd, pool[j].qd) or rng.random() < allow_invalid):
+            if maxbond(pool[i]) * maxbond(pool[j]) <= 6 and ((len(pool[i].A) == len(pool[j].A) and np.array_equal(pool[i].qd, pool[j].qd)) or rng.random() < allow_invalid):
                 return {'h': 'mul_mpo', 'i': i, 'j': j}
         if k == 7 and idx_mpo and idx_mps:
             i, j = int(rng.choice(idx_mpo)), int(rng.choice(idx_mps))
-            if maxbond(pool[i]) * maxbond(pool[j]) <= 8 and (np.array_equal(pool[i].qd, pool[j].qd) or rng.random() < allow_invalid):
+            if maxbond(pool[i]) * maxbond(pool[j]) <= 8 and ((len(pool[i].A) == len(pool[j].A) and np.array_equal(pool[i].qd, pool[j].qd)) or rng.random() < allow_invalid):
                 return {'h': 'apply', 'i': i, 'j': j}
+        if k == 10 and len(pool) < 9:
+            d = int(rng.integers(1, 3)); ns = int(rng.integers(1, 4))
+            v = gen.exact_values(rng, (d ** ns,), str(rng.choice(['int', 'float', 'complex'])))
+            if allow_invalid == 0.0 and not np.any(v):
+                continue    # the zero vector is outside the domain of from_vector (oracle histories)
+            return {'h': 'from_vector', 'd': d, 'nsites': ns, 'v': [complex(x) for x in v], 'tol': float(rng.choice([0, 0, 0.25, 0.5, 0.125]))}
+        if k in (11, 12, 13, 14, 15) and idx_mps and idx_mpo:
+            kind = ['tdvp1', 'tdvp2', 'dmrg1', 'dmrg2', 'tdvp1'][k - 11] if k < 15 else str(rng.choice(['tdvp2', 'dmrg1', 'dmrg2']))
+            i, iH = int(rng.choice(idx_mps)), int(rng.choice(idx_mpo))
+            psi, H = pool[i], pool[iH]
+            L = len(psi.A)
+            ok = (len(H.A) == L and L <= 3 and (L >= 2 or kind in ('tdvp1', 'dmrg1')) and maxbond(psi) <= 2 and maxbond(H) <= 2
+                  and np.array_equal(psi.qd, H.qd) and len(H.qD[0]) == 1 and len(H.qD[-1]) == 1
+                  and int(H.qD[0][0]) == 0 and int(H.qD[-1][0]) == 0 and len(psi.qD[0]) == 1 and len(psi.qD[-1]) == 1)
+            if ok:
+                op = {'h': kind, 'iH': iH, 'i': i, 'numsteps': 1, 'numiter': int(rng.integers(1, 3))}
+                if kind.startswith('tdvp'):
+                    op['dt'] = complex(rng.choice([0.5j, 0.25j, 0.5]))
+                if kind.endswith('2'):
+                    op['tol'] = float(rng.choice([0, 0, 0.25]))
+                return op
         if k == 8 and rng.random() < 0.3:
             return {'h': 'zero_q', 'i': int(rng.integers(0, len(pool)))}
         if k == 9 and rng.random() < 0.3 and len(pool) < 9:
@@ -83,11 +112,29 @@ def choose_op(rng, pool, allow_invalid=0.03):
     return {'h': 'copy', 'i': 0}
 
 
+INPLACE_EVO = ('tdvp1', 'tdvp2', 'dmrg1', 'dmrg2')
+INPLACE = ('ortho_mps', 'ortho_mpo', 'compress', 'zero_q') + INPLACE_EVO
+
+
 def apply_op(pool, op, rec):
     """execute one op on the real objects (in place / appending); returns list of scalar outputs"""
     import pytenet as ptn
     h = op['h']
-    with kernels.patched(rec, ('bond_ops', 'mps', 'mpo')), kernels.patched_abs(rec):
+    with kernels.patched(rec, ('bond_ops', 'mps', 'mpo')), kernels.patched_abs(rec), krylov_kernels.patched(rec):
+        if h == 'from_vector':
+            pool.append(ptn.MPS.from_vector(op['d'], op['nsites'], np.array(op['v']), tol=op['tol']))
+            return []
+        if h in INPLACE_EVO:
+            H, psi = pool[op['iH']], pool[op['i']]
+            if type(H).__name__ != 'MPO' or type(psi).__name__ != 'MPS':
+                raise TypeError('wrong class')
+            if h == 'tdvp1':
+                return [ptn.integrate_local_singlesite(H, psi, op['dt'], op['numsteps'], numiter_lanczos=op['numiter'])]
+            if h == 'tdvp2':
+                return [ptn.integrate_local_twosite(H, psi, op['dt'], op['numsteps'], numiter_lanczos=op['numiter'], tol_split=op['tol'])]
+            if h == 'dmrg1':
+                return list(ptn.calculate_ground_state_local_singlesite(H, psi, op['numsteps'], numiter_lanczos=op['numiter']))
+            return list(ptn.calculate_ground_state_local_twosite(H, psi, op['numsteps'], numiter_lanczos=op['numiter'], tol_split=op['tol']))
         if h == 'ortho_mps' or h == 'ortho_mpo':
             o = pool[op['i']]
             if type(o).__name__ != ('MPS' if h == 'ortho_mps' else 'MPO'):
@@ -148,7 +195,7 @@ def run_history(rng, nsteps, pool=None):
     inexact = False
     for _ in range(nsteps):
         op = choose_op(rng, pool)
-        rec = kernels.Recorder()
+        rec = krylov_kernels.KryRecorder()
         snaps = [mpsgen.snapshot(o) for o in pool]
         n_before = len(pool)
 
@@ -160,24 +207,30 @@ def run_history(rng, nsteps, pool=None):
         except exact.Inexact:
             inexact = True
             break
-        if rec.inexact:
+        if rec.inexact or too_big(rec.calls) or too_big(r):
             inexact = True
             break
         enc_op = dict(op)
         if 'tol' in enc_op:
             enc_op['tol'] = exact.enc_real(enc_op['tol'])
+        if 'dt' in enc_op:
+            enc_op['dt'] = exact.enc_scalar(enc_op['dt'])
+        if 'v' in enc_op:
+            enc_op['v'] = [exact.enc_scalar(x) for x in enc_op['v']]
         enc_op['kernels'] = rec.calls
         steps.append(enc_op)
         if not r['ok']:
             impl_steps.append(r)
             break
-        target = op['i'] if op['h'] in ('ortho_mps', 'ortho_mpo', 'compress', 'zero_q') else None
+        target = op['i'] if op['h'] in INPLACE else None
         changed = [i for i in range(n_before) if i == target or mpsgen.snapshot(pool[i]) != snaps[i]] + list(range(n_before, len(pool)))
         try:
             r['changed'] = changed
             r['objs'] = [enc_obj(pool[i]) for i in changed]
             r['wf'] = all(wf(o) for o in pool)
             r['shared'] = sharing(pool, changed)
+            if too_big(r['objs']):
+                raise exact.Inexact('too big')
         except exact.Inexact:
             inexact = True
             steps.pop()
